@@ -35,7 +35,7 @@ def gen(rng, tier, i):
     elif r < 0.75: caps = {'default': 8, 'vec': None}
     else: caps = {'default': 64, 'vec': None}      # fault-free only
     return {'script': script, 'sims': sims, 'delays': wavegen.gen_delays(rng, skew=rng.choice(['wild', 'wild', 'mild', 'equal'])), 'caps': caps,
-            'batches': wavegen.gen_batches(rng, n_max=3, sims=sims, p_custom=0.7, p_k=0.2, p_time=0.0), 'actrl': None,
+            'argforms': wavegen.gen_argforms(rng), 'batches': wavegen.gen_batches(rng, n_max=3, sims=sims, p_custom=0.7, p_k=0.2, p_time=0.0), 'actrl': None,
             'cfg': {'cls': rng.choice(['cpu', 'cpu', 'gpu']), 'c_reuse': rng.random() < 0.4, 'strip_forks': rng.random() < 0.4,
                     'sched': wavegen.gen_order_sched(rng), 'block': wavegen.gen_block(rng)},
             'poison': {'vals': [rng.choice([0, 1, 7, 40, float(wsim.TMIN), float(wsim.TMAX), float(wsim.TMAX_OVL)]) for _ in range(5)]} if rng.random() < 0.4 else None}
